@@ -283,6 +283,11 @@ int sqfs_file_open(sqfs_file_t **out, const char *filename, sqfs_u32 flags)
 	if (ret) {
 		os_error_t err = get_os_error_state();
 		sqfs_native_file_close(fd);
+#if !defined(_WIN32) && !defined(__WINDOWS__)
+		/* we created or truncated it, do not leave it behind */
+		if (!(flags & SQFS_FILE_OPEN_READ_ONLY))
+			unlink(filename);
+#endif
 		set_os_error_state(err);
 		return ret;
 	}
